@@ -216,6 +216,8 @@ def _model(draw):
     a, b = draw(st.sampled_from(_SCAL + [["c", "Trk", []]])), draw(st.sampled_from(_SCAL + [["c", "Jet", []]]))
     m[holder].append(["mixed", draw(st.sampled_from([["c", "Tag", [a, b]], ["c", "Tag2", [a, b]], ["c", "Swap", [a, b]], ["c", "HalfPair", [a]], ["c", "It2", [a, b]], ["c", "TagInts", [b]], ["c", "Mix", [a]], ["c", "Mix", [b]],
                                                           ["c", "MixIt", []], ["c", "MixBox", [a]], ["c", "GenLast", [b]], ["c", "MixIt", []]]))])
+    # a two-parameter generic with two DIFFERENT arguments is reachable from the event (which argument a method's variable takes)
+    m["Evt"].append(["pair", ["c", draw(st.sampled_from(["Pair", "Pair", "Swap", "Tag", "Tag2"])), [["c", "Trk", []], draw(st.sampled_from([["int"], ["float"], ["c", "Jet", []]]))]]])
     return m
 
 
